@@ -9,6 +9,10 @@
 //   text  cstr / line / raw reads / skip / sub-readers against a cursor model
 //   bits  BitWriter / BitReader against an MSB-first bit vector
 //   block BlockStringWriter concatenation
+//   alias raw blocks / by-reference values stored inside the writer being appended to, x capacity histories (enumerated)
+//   own   reader constructors; shared_ptr one with the caller's reference dropped before reading (enumerated)
+// --arg alias_pput=1 additionally drives pput<T>(off, reference into own buffer) with growth (see notes/c01.md)
+#include "c01_alias.hh"
 #include "c01_bits.hh"
 #include "c01_oracle.hh"
 #include "c01_script.hh"
@@ -190,11 +194,14 @@ int main(int argc, char** argv) {
   std::string only = c.arg("only");
   auto on = [&](const char* p) { return only.empty() || only == p; };
   bool single = !c.arg("script").empty();
+  g_alias_pput = c.arg("alias_pput") == "1";
   vf::Rng g = c.rng();
 
   // small enumerated scopes first: their witnesses are the shortest
   if (!single) {
     try {
+      if (on("alias")) part_alias();
+      if (on("own")) part_own();
       if (on("x16")) part_x16();
       if (on("x24")) part_x24();
       if (on("r48")) part_r48(g);
